@@ -23,6 +23,9 @@ fn classes(s: &Summary, st: &mut Stats) {
     if s.delivered > 0 {
         st.class("response delivered");
     }
+    if s.lib_validation_disagrees > 0 {
+        st.class("library validation disagrees with the reference HMAC (C04's business; agent judged against the library's verdict)");
+    }
 }
 
 static PROP: AgentProp = AgentProp {
@@ -33,7 +36,7 @@ static PROP: AgentProp = AgentProp {
 };
 
 pub fn run(ctx: &Ctx) -> EvidenceMeta {
-    drive(ctx, &PROP, 4_000, 200_000);
+    drive(ctx, &PROP, 25_000, 800_000);
     EvidenceMeta {
         rule: "histories as in C05 biased to sealed requests (SHA-1, SHA-256, both), to responses drawn from {unsigned, signed with the \
                configured key / another configured-later key / a never configured key x SHA-1 / SHA-256 / both, one HMAC byte corrupted} \
